@@ -27,11 +27,13 @@ def _reexec_with_hashseed(hs: str) -> None:
 # ------------------------------------------------------------------ minimise / replay
 
 
-def minimise(check, plan, signature, ctx, budget=400):
+def minimise(check, plan, signature, ctx, budget=400, wall_s=150.0):
     best = plan
     tries = 0
     improved = True
-    while improved and tries < budget:
+    t_end = time.time() + wall_s
+
+    while improved and tries < budget and time.time() < t_end:
         improved = False
         for cand in check.shrink_candidates(best):
             tries += 1
@@ -43,7 +45,7 @@ def minimise(check, plan, signature, ctx, budget=400):
                 best = v.get("plan", cand)
                 improved = True
                 break
-            if tries >= budget:
+            if tries >= budget or time.time() > t_end:
                 break
     return best, tries
 
